@@ -384,12 +384,15 @@ theorem C14_inline_inert_html (fn : Footnotes.Table) (s : Str) (h : inertText s 
     tokenizeInner htmlSpanTypes fn s = .ok [.rawText s] :=
   (C14_inline_inert htmlSpanTypes fn s htmlSpanTypes_inert h).2.2 hne
 
-/-- **Every modelled class, `Math` and `GithubWiki` included**: if moreover the text contains no `$`
-    and no `[[`, no class at all finds a match — for every token list whatsoever. -/
+/-- **Every modelled class, `Math`, `GithubWiki` and the two XWiki macro classes included**: if moreover
+    the text contains no `$` and no `[[` and does not begin with `\s*{{/` (`xmacroOk`: the one place where
+    `XWikiBlockMacroEnd` can fire on a text without newline; `XWikiBlockMacroStart` needs a newline), no class
+    at all finds a match — for every token list whatsoever.  The hypothesis `hx` was added when the two XWiki
+    classes were modelled: the inert text `{{/info}}` IS one `XWikiBlockMacroEnd` token under a list with that class. -/
 theorem C14_inline_inert_all (types : List STok) (fn : Footnotes.Table) (s : Str)
-    (h : inertText s = true) (hd : '$' ∉ s) (hw : wikiOk s = true) :
+    (h : inertText s = true) (hd : '$' ∉ s) (hw : wikiOk s = true) (hx : xmacroOk s = true) :
     findAll s types fn = .ok [] ∧ (s ≠ [] → tokenizeInner types fn s = .ok [.rawText s]) :=
-  ⟨findAll_inert_all s types fn h hd hw, tokenizeInner_inert_all types fn s h hd hw⟩
+  ⟨findAll_inert_all s types fn h hd hw hx, tokenizeInner_inert_all types fn s h hd hw hx⟩
 
 /-- **Characters with no inline meaning anywhere.**  Text made only of characters other than
     ``\ ` < & ~ [ * _`` and newline — ASCII letters, digits, spaces, every non-ASCII character and
